@@ -423,3 +423,55 @@ pub fn q_cost(p: &Pos, limit: i64) -> i64 {
     }
     limit - budget
 }
+
+/// En passant as an answer to check: the pawn that just double-stepped attacks the king of the side
+/// to move, a capturing pawn stands next to it, and the king is crowded by own men and attacked
+/// squares so that the en-passant capture is often one of very few (or the only) legal moves.
+pub fn ep_check_family(rng: &mut R, n: usize) -> Vec<Pos> {
+    let mut out = vec![];
+    let mut tries = 0;
+    while out.len() < n && tries < n * 400 {
+        tries += 1;
+        let wtm = rng.gen_bool(0.5);
+        let (pawn_r, ep_r, king_r, me, you) = if wtm { (4, 5, 3, 1i8, -1i8) } else { (3, 2, 4, -1i8, 1i8) };
+        let f = rng.gen_range(0..8i32);
+        let kf = if rng.gen_bool(0.5) { f - 1 } else { f + 1 };
+        let cf = if rng.gen_bool(0.5) { f - 1 } else { f + 1 };
+        let (Some(ks), Some(cs)) = (at(kf, king_r), at(cf, pawn_r)) else { continue };
+        let mut b = [0i8; 64];
+        b[at(f, pawn_r).unwrap() as usize] = you;
+        b[ks as usize] = 6 * me;
+        b[cs as usize] = me;
+        // crowd the king
+        for (df, dr) in KING {
+            if let Some(s) = at(kf + df, king_r + dr) {
+                if b[s as usize] == 0 && rng.gen_bool(0.45) {
+                    let k = *[1i8, 1, 2, 3, 4].choose(rng).unwrap();
+                    if k == 1 && (s < 8 || s >= 56) {
+                        continue;
+                    }
+                    b[s as usize] = k * me;
+                }
+            }
+        }
+        let mut place = |v: i8, rng: &mut R, b: &mut [i8; 64]| {
+            for _ in 0..20 {
+                let s = rng.gen_range(0..64usize);
+                if b[s] == 0 && !(v.abs() == 1 && (s < 8 || s >= 56)) {
+                    b[s] = v;
+                    return;
+                }
+            }
+        };
+        place(-6 * me, rng, &mut b);
+        for _ in 0..rng.gen_range(1..5) {
+            let k = *[5i8, 4, 4, 3, 2, 1].choose(rng).unwrap();
+            place(k * you, rng, &mut b);
+        }
+        let p = Pos { b, wtm, castle: 0, ep: at(f, ep_r), half: 0, full: 20 };
+        if p.is_legal_position() && p.ep_legal() {
+            out.push(p);
+        }
+    }
+    out
+}
